@@ -36,7 +36,7 @@ func init() {
 		defer os.Chdir(old)
 		os.MkdirAll("w", 0755)
 		// images the documents may reference
-		for _, n := range []string{"i.png", "i.pdf", "i.eps", "img.png", "b\\.png", "c&o.png", "c\"o.png"} {
+		for _, n := range []string{"i.png", "i.pdf", "i.eps", "img.png", "b\\.png", "d\\", "c&o.png", "c\"o.png"} {
 			os.WriteFile(n, []byte("x"), 0644)
 		}
 		for in.Scan() {
